@@ -1790,4 +1790,157 @@ Section System.
     rewrite Hdc. cbn [N.eqb negb]. rewrite (exchange_once es Hb). cbn [negb].
     unfold model_obs. rewrite run_ret; [reflexivity|]. intros i t [].
   Qed.
+
+  (* ---------------------------------------------------------------------- *)
+  (* 10. expiry: the sweep removes everything an interrupted exchange left,   *)
+  (*     and nothing of it can be delivered afterwards                       *)
+  Fixpoint exec (w : world) (es : list ev) : world :=
+    match es with [] => w | e :: r => exec (fst (step c w e)) r end.
+
+  Lemma run_app : forall es1 es2 w, run c w (es1 ++ es2) = run c w es1 ++ run c (exec w es1) es2.
+  Proof.
+    induction es1 as [|e es1 IH]; intros es2 w; cbn [List.app run exec]; [reflexivity|].
+    destruct (step c w e) as [w' o]. cbn [fst]. rewrite IH. reflexivity.
+  Qed.
+
+  Lemma exec_inv N : forall es w,
+    winv N w -> Forall bump_ok es -> (forall k, ver (vers w) k + bumps es k <= N k) ->
+    winv N (exec w es) /\ (forall k, ver (vers (exec w es)) k <= N k).
+  Proof.
+    induction es as [|e es IH]; intros w Hinv Hb HN; cbn [exec].
+    { split; [exact Hinv|]. intros k. specialize (HN k). unfold bumps in HN. cbn in HN. lia. }
+    inversion Hb as [|? ? Hbe Hbes]; subst.
+    pose proof (step_inv N w e Hinv Hbe) as Hst. pose proof (step_vers w e) as Hve.
+    destruct (step c w e) as [w' o]. cbn [fst] in *. destruct Hst as [Hinv' _].
+    { intros k ->. specialize (HN k). rewrite bumps_cons in HN. cbn [bump_count] in HN. rewrite Z.eqb_refl in HN.
+      pose proof (bumps_nonneg es k). lia. }
+    apply IH; [exact Hinv'|exact Hbes|].
+    intros k. specialize (HN k). rewrite bumps_cons in HN. rewrite Hve.
+    destruct e; cbn [bump_count] in HN; try lia. rewrite ver_bump. rewrite (Z.eqb_sym k0 k) in HN. destruct (k =? k0) eqn:E; [|lia].
+    apply Z.eqb_eq in E. subst k0. lia.
+  Qed.
+
+  Lemma bumps_app es1 es2 k : bumps (es1 ++ es2) k = bumps es1 k + bumps es2 k.
+  Proof. induction es1 as [|e es1 IH]; cbn [List.app]; [unfold bumps at 2; cbn; lia|]. rewrite !bumps_cons, IH. lia. Qed.
+
+  (* the sweep, in any state whatever: both tables of that side are empty afterwards *)
+  Theorem expire_clears w atB :
+    let w' := fst (step c w (Expire atB)) in
+    let e' := if atB then wb w' else wa w' in sending e' = [] /\ receiving e' = [].
+  Proof. destruct atB; cbn; split; reflexivity. Qed.
+
+  (* ... and after the sweep at a side, in every reachable state and for every
+     continuation of the script, each body handed to that side's application is paid
+     for by a first message that arrived AFTER the sweep: what an interrupted exchange
+     had accumulated is gone and cannot be completed by late, duplicated or replayed
+     blocks *)
+  Theorem expire_forgets es1 atB es2 :
+    Forall bump_ok (es1 ++ Expire atB :: es2) ->
+    let side := if atB then 1 else 0 in
+    let after := map proj_mob (run c (exec (init c) (es1 ++ [Expire atB])) es2) in
+    forall t, handed after side t <= arrivals after side t.
+  Proof.
+    intros Hb side after t.
+    set (N := bumps (es1 ++ Expire atB :: es2)).
+    assert (Hb1 : Forall bump_ok (es1 ++ [Expire atB])).
+    { apply Forall_app in Hb. destruct Hb as [H1 H2]. apply Forall_app. split; [exact H1|]. constructor; [exact I|constructor]. }
+    assert (Hb2 : Forall bump_ok es2).
+    { apply Forall_app in Hb. destruct Hb as [_ H2]. inversion H2; assumption. }
+    assert (HNeq : forall k, N k = bumps (es1 ++ [Expire atB]) k + bumps es2 k).
+    { intros k. unfold N. rewrite !bumps_app, !bumps_cons. cbn [bump_count]. unfold bumps at 4. cbn. lia. }
+    destruct (exec_inv N (es1 ++ [Expire atB]) (init c) (winv_init N (fun k => bumps_nonneg _ k)) Hb1) as [Hinv Hv].
+    { intros k. rewrite HNeq. pose proof (bumps_nonneg es2 k). cbn. lia. }
+    assert (Hbound : forall k, ver (vers (exec (init c) (es1 ++ [Expire atB]))) k + bumps es2 k <= N k).
+    { intros k. rewrite HNeq.
+      assert (Hver : forall es w, (forall k, ver (vers w) k + bumps es k <= ver (vers w) k + bumps es k) ->
+                     ver (vers (exec w es)) k = ver (vers w) k + bumps es k).
+      { induction es as [|e es IH]; intros w _; cbn [exec]; [unfold bumps; cbn; lia|].
+        pose proof (step_vers w e) as Hve. rewrite IH by (intros; lia). rewrite Hve, bumps_cons.
+        destruct e; cbn [bump_count]; try lia. rewrite ver_bump, (Z.eqb_sym k0 k). destruct (k =? k0) eqn:E; [|lia].
+        apply Z.eqb_eq in E. subst. lia. }
+      rewrite Hver by (intros; lia). cbn. lia. }
+    pose proof (run_once N es2 _ Hinv Hb2 Hbound side t) as H.
+    assert (Hpot : pot (exec (init c) (es1 ++ [Expire atB])) side t = 0).
+    { assert (Hex : forall es w, exec w (es ++ [Expire atB]) = fst (step c (exec w es) (Expire atB))).
+      { induction es as [|e es IH]; intros w; cbn [List.app exec]; [reflexivity|apply IH]. }
+      rewrite Hex. unfold side, pot, potE. destruct atB; cbn; reflexivity. }
+    unfold after. lia.
+  Qed.
+
+  (* ---------------------------------------------------------------------- *)
+  (* 11. error outcomes (any application, any state, any message)            *)
+  Lemma pr_shape app e r mx isb1 :
+    let '(_, o, d) := process_received app e r mx isb1 in
+    (o = Fail /\ d = []) \/ (exists x, d = [x] /\ o = Out (app (mtok r) x)) \/
+    (exists sm, d = [] /\ o = Out (Some sm) /\ mbody sm = []).
+  Proof.
+    unfold process_received.
+    destruct ((mcode r =? GET) || (mcode r =? DELETE)); [right; left; exists r; auto|].
+    destruct (if isb1 then mb1 r else mb2 r) as [b|].
+    2: { destruct (isb1 && _); [left; auto|right; left; exists r; auto]. }
+    destruct (if isb1 then false else match get_sent_request e (mtok r) with None => true | Some _ => false end); [left; auto|].
+    destruct (observe_key e r b (get_sent_request e (mtok r))) as [[e0 key] ok].
+    destruct (negb ok); [left; auto|].
+    destruct (tget (receiving e0) key) as [c0|]; destruct (bmore b);
+      try (destruct (negb (bnum b =? 0)); [left; auto|right; left; exists r; auto]).
+    all: match goal with |- context [reasm ?a ?b0 ?c1] => destruct (reasm a b0 c1) as [cm' appended] end.
+    all: match goal with |- context [if ?cnd then _ else _] => destruct cnd end.
+    all: try (right; left; eexists; split; reflexivity).
+    all: right; right; eexists; split; [reflexivity|split; [reflexivity|]].
+    all: destruct isb1; try reflexivity; destruct (get_sent_request e (mtok r)); reflexivity.
+  Qed.
+
+  (* every error outcome of processReceivedMessage hands nothing to the application *)
+  Theorem pr_error_nothing app e r mx isb1 :
+    let '(_, o, d) := process_received app e r mx isb1 in o = Fail -> d = [].
+  Proof.
+    pose proof (pr_shape app e r mx isb1) as H. destruct (process_received app e r mx isb1) as [[e' o] d].
+    intros ->. destruct H as [[_ H]|[[x [_ H]]|[sm [_ [H _]]]]]; [exact H|discriminate|discriminate].
+  Qed.
+
+  (* Handle: when the error callback fires, either nothing was handed to the application,
+     or what was handed over was a complete message (covered by the safety theorems) and
+     the error is the failure to start the block-wise transfer of the application's own
+     answer to it (16 bytes or more) *)
+  Theorem handle_error_outcome app e r :
+    0 <= eszx e <= 7 -> (forall b, mb1 r = Some b \/ mb2 r = Some b -> 0 <= bszx b) ->
+    let '(_, _, d, nerr) := handle app e r in
+    nerr <> 0 -> d = [] \/ exists x wm, d = [x] /\ app (mtok r) x = Some wm /\ 16 <= blen (mbody wm).
+  Proof.
+    intros Hsz Hb. unfold handle.
+    assert (Hss : forall e0 w mx blk, 0 <= mx <= 7 -> snd (start_sending e0 w mx (emax e) blk) = Fail ->
+                  exists wm, w = Some wm /\ 16 <= blen (mbody wm)).
+    { intros e0 w mx blk Hmx. unfold start_sending. destruct w as [wm|]; [|discriminate].
+      pose proof (size_pos mx Hmx). destruct (blen (mbody wm) <? size mx) eqn:Hlt; [discriminate|].
+      intros _. exists wm. split; [reflexivity|]. apply Z.ltb_ge in Hlt. lia. }
+    assert (Hrecv : let '(_, _, d, nerr) :=
+              (let '(e', o, d) := handle_received app e r in
+               match o with Out w => (e', w, d, 0) | Fail => (e', Some (entity_incomplete (mtok r)), d, 1) end) in
+              nerr <> 0 -> d = [] \/ exists x wm, d = [x] /\ app (mtok r) x = Some wm /\ 16 <= blen (mbody wm)).
+    { unfold handle_received.
+      destruct ((mcode r =? 0) || ((225 <=? mcode r) && (mcode r <=? 229))); [intros Hn; contradiction Hn; reflexivity|].
+      destruct ((mcode r =? GET) || (mcode r =? DELETE)).
+      - assert (Hfit : 0 <= fit (mb2 r) (eszx e) <= 7) by (apply fit_range; [exact Hsz|intros b H; apply Hb; right; exact H]).
+        match goal with |- context [start_sending ?a ?b0 ?c0 ?d0 ?f] =>
+          pose proof (Hss a b0 c0 f Hfit) as Hs; destruct (start_sending a b0 c0 d0 f) as [e' o] end.
+        cbn [snd] in Hs. destruct o as [w|]; [intros Hn; contradiction Hn; reflexivity|].
+        intros _. right. destruct (Hs eq_refl) as [wm [Hw Hl]]. exists r, wm. auto.
+      - set (isb1 := is_upload (mcode r)).
+        assert (Hfit : 0 <= fit (if isb1 then mb1 r else mb2 r) (eszx e) <= 7).
+        { apply fit_range; [exact Hsz|]. intros b H. apply Hb. destruct isb1; [left|right]; exact H. }
+        pose proof (pr_shape app e r (fit (if isb1 then mb1 r else mb2 r) (eszx e)) isb1) as Hp.
+        destruct (process_received app e r (fit (if isb1 then mb1 r else mb2 r) (eszx e)) isb1) as [[e1 o] d].
+        destruct Hp as [[-> ->]|[[x [-> ->]]|[sm [-> [-> Hnil]]]]].
+        + intros _. left. reflexivity.
+        + match goal with |- context [start_sending ?a ?b0 ?c0 ?d0 ?f] =>
+            pose proof (Hss a b0 c0 f Hfit) as Hs; destruct (start_sending a b0 c0 d0 f) as [e' o] end.
+          cbn [snd] in Hs. destruct o as [w|]; [intros Hn; contradiction Hn; reflexivity|].
+          intros _. right. destruct (Hs eq_refl) as [wm [Hw Hl]]. exists x, wm. auto.
+        + match goal with |- context [start_sending ?a ?b0 ?c0 ?d0 ?f] =>
+            destruct (start_sending a b0 c0 d0 f) as [e' o] end.
+          destruct o; intros _; left; reflexivity. }
+    destruct (tget (sending e) (mtok r)) as [orig|]; [|exact Hrecv].
+    destruct (wants_to_be_received r); [exact Hrecv|].
+    destruct (continue_sending e r orig) as [[e2 w] err]. intros _. left. reflexivity.
+  Qed.
 End System.
